@@ -39,6 +39,7 @@ void rp_mark_nontrivial (void);
 void rp_note_label (const char *label, int mo, int fmo, int kind);   /* Ord extraction */
 int rp_run (FILE *sched, const struct rp_harness *h, struct rp_stats *st, const char *viol_dir, const char *prop);
 long rp_explore_from (FILE *sched, const struct rp_harness *h, long runs, unsigned seed, const char *viol_dir, const char *prop, int (*done) (void), long max_steps);
+long rp_explore_pb (FILE *sched, const struct rp_harness *h, int bound, long max_runs, const char *viol_dir, const char *prop, int (*done) (void), long max_steps);   /* all schedules with at most `bound` preemptions */
 void rp_print_stats (const struct rp_stats *st, FILE *out);
 void rp_print_ord (FILE *out);
 #endif
